@@ -66,7 +66,8 @@ type Report struct {
 	Level       string
 	Rule        string
 	Assumptions []string
-	Dir         string // /verif
+	Dir         string // /verif (known_findings.json)
+	OutDir      string // where evidence/ and replays/ are written (default Dir; VERIF_OUT overrides)
 	Deadline    time.Time
 
 	start    time.Time
@@ -81,7 +82,7 @@ type Report struct {
 }
 
 func NewReport(prop, tier string, seed int, level, dir string, budget time.Duration) *Report {
-	return &Report{Prop: prop, Tier: tier, Seed: seed, Level: level, Dir: dir,
+	return &Report{Prop: prop, Tier: tier, Seed: seed, Level: level, Dir: dir, OutDir: OutDir(dir),
 		start: time.Now(), Deadline: time.Now().Add(budget),
 		viol: map[string]*Violation{}, extra: map[string]any{}}
 }
@@ -207,6 +208,15 @@ func LoadFindings(dir string) []Finding {
 	return fs
 }
 
+// OutDir resolves the output directory (VERIF_OUT overrides, used by the mutant runner so that
+// runs against scratch trees never touch the committed evidence).
+func OutDir(dir string) string {
+	if o := os.Getenv("VERIF_OUT"); o != "" {
+		return o
+	}
+	return dir
+}
+
 var unsafeChars = regexp.MustCompile(`[^A-Za-z0-9_.-]+`)
 
 // Finish writes replay artefacts and the evidence file, prints the verdict lines and
@@ -221,7 +231,7 @@ func (r *Report) Finish() int {
 	}
 	exit := 0
 	var unknown, knownHit int
-	os.MkdirAll(filepath.Join(r.Dir, "replays"), 0o755)
+	os.MkdirAll(filepath.Join(r.OutDir, "replays"), 0o755)
 	sort.Strings(r.violOrd)
 	for _, sig := range r.violOrd {
 		v := r.viol[sig]
@@ -229,7 +239,7 @@ func (r *Report) Finish() int {
 		if len(name) > 120 {
 			name = fmt.Sprintf("%s-%016x.json", r.Prop, Hash(sig))
 		}
-		path := filepath.Join(r.Dir, "replays", name)
+		path := filepath.Join(r.OutDir, "replays", name)
 		b, _ := json.MarshalIndent(v, "", " ")
 		os.WriteFile(path, b, 0o644)
 		v.Replay = path
@@ -315,8 +325,8 @@ func (r *Report) Finish() int {
 		"violations":  unknown,
 	}
 	b, _ := json.MarshalIndent(ev, "", " ")
-	os.MkdirAll(filepath.Join(r.Dir, "evidence"), 0o755)
-	if err := os.WriteFile(filepath.Join(r.Dir, "evidence", r.Prop+".json"), b, 0o644); err != nil {
+	os.MkdirAll(filepath.Join(r.OutDir, "evidence"), 0o755)
+	if err := os.WriteFile(filepath.Join(r.OutDir, "evidence", r.Prop+".json"), b, 0o644); err != nil {
 		fmt.Printf("HARNESS-ERROR property=%s cannot write evidence: %v\n", r.Prop, err)
 		if exit == 0 {
 			exit = 2
